@@ -179,6 +179,7 @@ Sels == [def |-> [by |-> "tag", v |-> "imp", pre |-> "none"],        \* plain im
          tag1 |-> [by |-> "tag", v |-> "v1", pre |-> "none"], tag2 |-> [by |-> "tag", v |-> "v2", pre |-> "none"],
          name2 |-> [by |-> "name", v |-> "v2", pre |-> "none"], dig2 |-> [by |-> "digest", v |-> "m2", pre |-> "none"],
          dkname |-> [by |-> "name", v |-> "q:z", pre |-> "none"],
+         dkrest |-> [by |-> "name", v |-> "x:v1", pre |-> "none"],
          preblobs |-> [by |-> "tag", v |-> "imp", pre |-> "blobs"], preall |-> [by |-> "tag", v |-> "imp", pre |-> "all"]]
 WantOf(g, sel) == IF Len(g.roots) = 1 THEN g.roots[1].n
                   ELSE IF sel.by = "digest" THEN sel.v
@@ -193,7 +194,17 @@ DrainClass(g, want) == \E n \in ClosureN(g.nodes, want) :
                                 /\ g.nodes[g.nodes[n].kids[i].n].a # "empty"
 
 Mk(gn, lp, sn) ==
-  IF gn \in DOMAIN Graphs
+  IF gn \in DOMAIN Graphs /\ lp = "dkrest"
+  THEN \* the Docker format remainder of the export of a single image: oci-layout and index.json stripped, what is
+       \* left (manifest.json + blobs/...) imported by the name in RepoTags ("x:<tag>" stands for the export name)
+       LET g == Graphs[gn]
+           m == g.nodes[g.roots[1].n]
+           E == {e \in BaseEntries(g) : e.c \notin {"layout", "index"}}
+       IN [kind |-> "docker", g |-> gn, lp |-> lp, sel |-> Sels[sn], nodes |-> g.nodes, roots |-> g.roots,
+           docker |-> DockerOf(g), entries |-> E, want |-> "",
+           dkwant |-> [cfg |-> m.kids[1].n, layers |-> [i \in 1..(Len(m.kids) - 1) |-> m.kids[i + 1].n]],
+           maxpass |-> 2, preblobs |-> {}, premans |-> {}, bad |-> ""]
+  ELSE IF gn \in DOMAIN Graphs
   THEN LET g == Graphs[gn]
            E == WithLink(BaseEntries(g), g.victim, lp)
            want == WantOf(g, Sels[sn])
@@ -217,18 +228,20 @@ LinkAll == (LinkOK \cup LinkBad) \ {"none"}
 DkIds == ({"dk1", "dksym", "dksame", "dkdot"} \X {"none"} \X {"def"})
          \cup ({"dk2"} \X {"none"} \X {"dkname"}) \cup ({"dk1"} \X {"dotslash", "junk"} \X {"def"})
 MultiIds == {"multi"} \X {"none"} \X {"tag1", "tag2", "name2", "dig2"}
+DkRestIds(G) == G \X {"dkrest"} \X {"dkrest"}
 
 \* quick: every order of the archives of three representative graphs, every link pattern on the smallest
 \* archive, a few on a 5 entry one, all Docker format archives
 QuickIds == ({"eidx", "single1", "art"} \X {"none"} \X {"def"})
             \cup ({"eidx"} \X LinkAll \X {"def"})
             \cup ({"art"} \X {"symroot", "symsib"} \X {"def"})
-            \cup DkIds
+            \cup DkIds \cup DkRestIds({"single1"})
 \* small: the other archives of <= 6 entries
 SmallIds == ((OciSmall \ {"eidx", "single1", "art"}) \X {"none"} \X {"def"})
             \cup ({"art"} \X {"symabs", "hardext", "symup", "hardshared", "idxlink", "dotslash", "junk", "dirs"} \X {"def"})
             \cup ({"single1"} \X {"none"} \X {"preblobs", "preall"})
             \cup ({"alg512"} \X {"symroot"} \X {"def"})
+            \cup DkRestIds({"emptyl", "dimg", "alg512", "extl"})
 \* mid: archives of 7 entries
 MidIds == (OciMid \X {"none"} \X {"def"})
           \cup ({"art"} \X {"chain2"} \X {"def"})
